@@ -184,6 +184,11 @@ def curated(p=STD_PROG):
         Seq(Alt(X, Seq(X, Y))), Seq(Rep(X), Rep(Y)), Seq(Optional(X), Optional(Y)), Seq(E, X), Seq(Optional(E), Optional(A), X),
         Seq(Rep(Alt(E, X)), O), Seq(Optional(AB), Optional(O), Rep(X)), Seq(Optional(Seq(A, B)), X),
         Seq(Alt(Rep(X), AB)), Seq(Optional(End()), Rep(X)), Seq(Rep(Seq(X, Optional(End())))),
+        # explicitly ordered option elements: every matcher scans past the others' occurrences
+        Seq(Optional(Rep(A)), Optional(O)), Seq(Rep(Optional(A)), O), Seq(Rep(A), O), Seq(Optional(B), Optional(A), Optional(O)),
+        Seq(Optional(B), Optional(A), O), Seq(Optional(B), Optional(Seq(A, O))), Seq(A, O), Seq(A, O, X), Seq(O, A, Optional(B), Rep(X)),
+        Seq(Optional(E), Optional(O), Optional(B), Optional(A)), Seq(O, Optional(A), E, A), Seq(O, Optional(A), E, Alt(A, B)),
+        Seq(E, Optional(B), O, B, Optional(X)), Seq(Optional(AB), Optional(E)), Seq(Optional(Grp(["-e", "-b"])), Rep(X)), Seq(Rep(Alt(A, B, O))), Seq(Rep(O), Rep(A), Optional(X)),
     ]
 
 
@@ -206,4 +211,100 @@ def family(p, n_random, seed, depth=3, with_end=True, want=None):
             continue
         seen.add(s)
         out.append({"ast": e, "str": s})
+    return out
+
+
+# ---- sentences ----
+def sample_items(p, e, rnd, vals=("v", "w2", "u"), poss=("x", "y", "z1")):
+    """a random sentence of the AST as an item sequence (see vlib/groups.py): mostly accepted inputs.
+    The reference semantics, not this sampler, says whether it is accepted."""
+    k = e["k"]
+    if k == "arg":
+        return [("pos", rnd.choice(poss))]
+    if k == "opt":
+        return [("occ", e["a"], None if is_flag(p, e["a"]) else rnd.choice(vals))]
+    if k == "grp":
+        n = rnd.choice([1, 1, 2, 3])
+        out = []
+        for _ in range(n):
+            key = rnd.choice(e["xs"])
+            out.append(("occ", key, None if is_flag(p, key) else rnd.choice(vals)))
+        return out
+    if k == "end":
+        return [("marker",)] if rnd.random() < 0.5 else []
+    if k == "seq":
+        out = []
+        for x in e["xs"]:
+            out += sample_items(p, x, rnd, vals, poss)
+        return out
+    if k == "alt":
+        return sample_items(p, rnd.choice(e["xs"]), rnd, vals, poss)
+    if k == "optional":
+        return sample_items(p, e["xs"][0], rnd, vals, poss) if rnd.random() < 0.6 else []
+    if k == "rep":
+        out = []
+        for _ in range(rnd.choice([1, 1, 2, 3])):
+            out += sample_items(p, e["xs"][0], rnd, vals, poss)
+        return out
+    raise ValueError(k)
+
+
+def perturb(p, items, rnd):
+    """a near miss: drop, duplicate, swap or add one item"""
+    items = list(items)
+    keys = [opt_key(o["names"]) for o in p["opts"]]
+    r = rnd.random()
+    if items and r < 0.25:
+        del items[rnd.randrange(len(items))]
+    elif items and r < 0.45:
+        i = rnd.randrange(len(items))
+        items.insert(i, items[i])
+    elif len(items) >= 2 and r < 0.7:
+        i = rnd.randrange(len(items) - 1)
+        items[i], items[i + 1] = items[i + 1], items[i]
+    else:
+        key = rnd.choice(keys)
+        new = rnd.choice([("pos", "x"), ("occ", key, None if is_flag(p, key) else "v")])
+        items.insert(rnd.randrange(len(items) + 1), new)
+    return items
+
+
+def render_items(items, p=None):
+    """the plain rendering of an item sequence: first name, separate value"""
+    out = []
+    for it in items:
+        if it[0] == "pos":
+            out.append(it[1])
+        elif it[0] == "marker":
+            out.append("--")
+        else:
+            out.append(it[1])
+            if it[2] is not None:
+                out.append(it[2])
+    return out
+
+
+def marker_ok(items):
+    """no occurrence after a marker (it would be a positional, not an occurrence)"""
+    seen = False
+    for it in items:
+        if it[0] == "marker":
+            seen = True
+        elif it[0] == "occ" and seen:
+            return False
+    return True
+
+
+def shuffle_runs(items, rnd):
+    """options adjacent on the command line may come in any order: shuffle every maximal run of occurrences"""
+    out, run = [], []
+    for it in list(items) + [None]:
+        if it is not None and it[0] == "occ":
+            run.append(it)
+        else:
+            rnd.shuffle(run)
+            out += run
+            run = []
+            if it is not None:
+                out.append(it)
     return out
